@@ -110,7 +110,7 @@ def shards(tier, prop):
                 if tier == 'quick' and tm != timings[PIN_ROT[alg]]:
                     continue        # quick: one timing per algorithm; these traced shards are bug-hunting only unless they exhaust
                 out.append({'module': 'harness.h_sim', 'fn': 'sizes', 'pin': {'alg': alg, 'timing': tm, 'props': props},
-                            'cond_timeout': 75 if tier == 'quick' else 1500, 'path_timeout': 90})
+                            'cond_timeout': 75 if tier == 'quick' else 600, 'path_timeout': 90})
     if prop == 'C05':
         out += timing_family(props, tier, three_shapes=('relabel', 'revjoin'))
         # machine shortage / ingest limit / simultaneous starts (concrete sizes, threshold not crossed)
